@@ -42,6 +42,8 @@ fn config_python_blas() {
     // for python builds that do not link to one of the blas/lapack
     // libraries provided by blas-src and lapack-src.
     println!("cargo:rustc-check-cfg=cfg(sdp_pyblas)");
+    // cfg(clarabel_verif) guards read-only verification hooks (src/verif_hooks.rs).
+    println!("cargo:rustc-check-cfg=cfg(clarabel_verif)");
 
     if cfg!(not(feature = "python")) {
         return;
